@@ -146,3 +146,51 @@ def int_alphabet(typ: str, seed: int = 0, extra: int = 3):
 
 
 SCALERS = (-3, -2, -1, 0, 1, 2, 3)
+
+
+_WORDS = None
+
+
+def code_words(maxlen: int = 30):
+    """Dictionary of 'magic' strings harvested from the implementation under test: every identifier and string literal
+    of han/*.py (attribute names such as 'value', 'datetime', 'obis', format strings, unit names...).  Text fields that
+    happen to contain such a word must still decode verbatim."""
+    global _WORDS
+    if _WORDS is None:
+        import glob
+        import io
+        import os
+        import tokenize
+
+        from mc import core
+
+        words = set()
+        for path in sorted(glob.glob(os.path.join(core.REPO, "han", "*.py"))):
+            try:
+                with open(path, "rb") as fh:
+                    for tok in tokenize.tokenize(fh.readline):
+                        if tok.type == tokenize.NAME:
+                            words.add(tok.string)
+                        elif tok.type == tokenize.STRING:
+                            try:
+                                v = eval(tok.string, {}, {})  # noqa: S307  (literal of the source under test)
+                            except Exception:  # noqa: BLE001
+                                continue
+                            if isinstance(v, str):
+                                words.update(v.split())
+                                words.add(v)
+            except (OSError, tokenize.TokenError, SyntaxError):
+                continue
+        words |= {"None", "True", "null", "%s", "{}", "{0}", "\\", "'", '"', "0x", "1e9", "nan", "inf", "-1", "value", "datetime", "VALUE"}
+        _WORDS = sorted(w for w in words if w and w.isascii() and w.isprintable() and len(w) <= maxlen)
+    return _WORDS
+
+
+def word_texts(limit: int | None = None):
+    """Each code word alone, embedded ('6525 best <word>') and doubled."""
+    out = []
+    for w in code_words(16):
+        out.append(w)
+        if len(w) <= 10:
+            out.append(("ab " + w + " 9")[:16])
+    return out if limit is None else out[:limit]
